@@ -363,11 +363,13 @@ def _evidently_immutable(e, fn_node, depth=0):
     return False
 
 
-def rule_det3(prog, rep, tier):
+def rule_det3(prog, rep, tier, scope=None):
     """DET-3: no state written by a function body survives the call (module globals, mutable module objects, function
     attributes of long-lived functions, class attributes, mutated mutable defaults, memoised mutable results)."""
     n = 0
-    for f in prog.all_functions():
+    fns = list(prog.all_functions()) if scope is None else list(scope)
+    scope_modules = {f.module.name for f in fns}
+    for f in fns:
         node = f.node
         own = [x for x in ast.walk(node)]
         for x in own:
@@ -439,6 +441,8 @@ def rule_det3(prog, rep, tier):
                                           "@%s caches a result that is not evidently immutable; a caller that mutates it changes what every later call returns" % en, loc(prog, d)))
     # module-level memo wrappers: name = lru_cache(...)(f)
     for m in prog.modules.values():
+        if m.name not in scope_modules:
+            continue
         for st in m.tree.body:
             if isinstance(st, ast.Assign) and isinstance(st.value, ast.Call):
                 c = st.value
@@ -447,8 +451,8 @@ def rule_det3(prog, rep, tier):
                 if en in MEMO_DECORATORS:
                     n += 1
                     rep.violation(Finding("DET-3", m.name, "memo-wrap:%s" % src(st.targets[0]), "module-level memoisation wrapper %s" % src(st, 70), loc(prog, st)))
-    rep.ob("DET-3", "%d functions scanned for writes to state that outlives the call" % len(list(prog.all_functions())), "holds", "", "%d candidate(s) examined" % n)
-    if n < 1:
+    rep.ob("DET-3", "%d functions scanned for writes to state that outlives the call" % len(fns), "holds", "", "%d candidate(s) examined" % n)
+    if scope is None and n < 1:
         raise AnalysisError("DET-3: no candidate write found at all (the per-activation closure attribute in docstring_parsers is expected)")
 
 
